@@ -160,7 +160,7 @@ func (tx *Transaction) Commit(ctx context.Context, scope *ReferenceScope, expr p
 			}
 
 			if !tx.Flags.ExportOptions.StripEndingLineBreak && !(fileInfo.Format == option.FIXED && fileInfo.SingleLine) {
-				if _, err := fp.Write(encodedLineBreak(tx.Flags.ExportOptions.LineBreak, fileInfo.Encoding)); err != nil {
+				if _, err := fp.Write(encodedLineBreak(fileInfo.LineBreak, fileInfo.Encoding)); err != nil {
 					return NewCommitError(expr, err.Error())
 				}
 			}
@@ -188,7 +188,7 @@ func (tx *Transaction) Commit(ctx context.Context, scope *ReferenceScope, expr p
 			}
 
 			if !tx.Flags.ExportOptions.StripEndingLineBreak && !(fileInfo.Format == option.FIXED && fileInfo.SingleLine) {
-				if _, err := fp.Write(encodedLineBreak(tx.Flags.ExportOptions.LineBreak, fileInfo.Encoding)); err != nil {
+				if _, err := fp.Write(encodedLineBreak(fileInfo.LineBreak, fileInfo.Encoding)); err != nil {
 					return NewCommitError(expr, err.Error())
 				}
 			}
